@@ -657,6 +657,9 @@ class TaskHandler(PoolThread):
                     job, ind = task[1][:2]
                     if job in cache:
                         cache[job]._set(ind + 1, (False, ExceptionInfo()))
+                        # the failure is one more part of the job: count
+                        # it, or the iterator never reaches its end.
+                        i = ind + 1
                 if set_length:
                     util.debug('doing set_length()')
                     set_length(i + 1)
